@@ -424,4 +424,30 @@ theorem uniqueNotRecheckedAtCommit_witness :
         [.tick, .begin "s1", .begin "s2", .exec "s1" tdef, .exec "s2" tdef, .commit "s1", .commit "s2"]).1.db.rows) = false := by
   decide
 
+/-! the code after `fix: the name of a table a transaction creates joins its write set` -/
+
+/-- two open transactions create the same name: the second committer is refused, one live relation of that name -/
+theorem commitChecksInsertedKeysOnly_second_creator_refused :
+    (run { commitChecksInsertedKeysOnly := true }
+      [.tick, .begin "s1", .begin "s2", .exec "s1" tdef, .exec "s2" tdef, .commit "s1", .commit "s2"]).2.getLast?
+      = some (.refused .constraint) ∧
+    namesOk (view { commitChecksInsertedKeysOnly := true }
+      ((run { commitChecksInsertedKeysOnly := true }
+        [.tick, .begin "s1", .begin "s2", .exec "s1" tdef, .exec "s2" tdef, .commit "s1", .commit "s2"]).1.db.freshSnap
+          { commitChecksInsertedKeysOnly := true })
+      (run { commitChecksInsertedKeysOnly := true }
+        [.tick, .begin "s1", .begin "s2", .exec "s1" tdef, .exec "s2" tdef, .commit "s1", .commit "s2"]).1.db.rows) = true := by
+  decide
+
+/-- … but the name stays in the write set when the table is dropped again in the same transaction: its commit is
+    refused although the committed catalog would hold the name once (the specification commits) -/
+theorem commitChecksInsertedKeysOnly_witness :
+    (run { commitChecksInsertedKeysOnly := true }
+      [.tick, .begin "s1", .begin "s2", .exec "s1" tdef, .exec "s1" (.dropTable "t"), .exec "s2" tdef, .commit "s2",
+       .commit "s1"]).2.getLast? = some (.refused .constraint) ∧
+    (Spec.run
+      [.tick, .begin "s1", .begin "s2", .exec "s1" tdef, .exec "s1" (.dropTable "t"), .exec "s2" tdef, .commit "s2",
+       .commit "s1"]).2.getLast? = some .ok := by
+  decide
+
 end AxVerif.Ddl.C15
